@@ -744,6 +744,31 @@ class Context:
         error_prototype.set("name", error_name)
         error_prototype.set("message", "")
 
+        if error_name == "Error":
+            from .errors import JSTypeError
+            from .values import JSBoundMethod
+
+            def error_to_string(this_val, *args):
+                # "name: message", either part alone when the other is empty
+                if not isinstance(this_val, JSObject):
+                    raise JSTypeError(
+                        "Error.prototype.toString requires that 'this' be an Object"
+                    )
+                vm = self._current_vm
+                get = (
+                    (lambda key: vm._get_property(this_val, key))
+                    if vm is not None
+                    else this_val.get
+                )
+                name, message = get("name"), get("message")
+                name = "Error" if name is UNDEFINED else to_string(name)
+                message = "" if message is UNDEFINED else to_string(message)
+                if not name or not message:
+                    return name or message
+                return name + ": " + message
+
+            error_prototype.set("toString", JSBoundMethod(error_to_string))
+
         def error_constructor(*args):
             message = args[0] if args else UNDEFINED
             err = JSObject(error_prototype)  # Set prototype
